@@ -54,6 +54,7 @@ OF OR IN CONNECTION WITH THE SOFTWARE OR THE USE OR OTHER DEALINGS IN THE SOFTWA
 #include <minisat/mtl/Alg.h>
 #include <tsolvers/THandler.h>
 
+#include <atomic>
 #include <cstdio>
 #include <iosfwd>
 #include <memory>
@@ -82,7 +83,7 @@ protected:
     bool      verbosity;
     enum class ConsistencyAction { BacktrackToZero, ReturnUndef, SkipToSearchBegin, NoOp };
     int search_counter;
-    bool stopFlag{false};
+    std::atomic<bool> stopFlag{false}; // written by notifyStop() from other threads
 public:
 
     // Constructor/Destructor:
